@@ -247,9 +247,10 @@ package vm
 //@   ensures @C07 runfn.frame.stacks: forall s *stack.Stack :: existed(s) ==> s.entries === old(s.entries)
 //@   ensures @C07 runfn.frame.rows: forall a ref :: existed(a) ==> objRowUnchanged(a)
 //@   ensures @C07 @C08 runfn.restore: vm.bytecode === old(vm.bytecode) && vm.stack == old(vm.stack) && vm.depth == old(vm.depth)
-//@   ensures @C06 @C07 runfn.scopes.len: err == nil ==> len(vm.environment.local) == old(len(vm.environment.local))
+//@   ensures @C06 @C07 runfn.scopes.len: len(vm.environment.local) <= old(len(vm.environment.local))
 //@   ensures @C06 runfn.scopes.count: count(scopes) >= old(count(scopes))
 //@   onpanic @C07 @C08 runfn.panic.restore: vm.bytecode === old(vm.bytecode) && vm.stack == old(vm.stack) && vm.depth == old(vm.depth)
+//@   onpanic @C06 @C07 runfn.panic.scopes: len(vm.environment.local) <= old(len(vm.environment.local))
 //@   recursion guarded depth maxCallDepth
 //@   panics maybe
 
@@ -261,10 +262,11 @@ package vm
 //@   ensures @C07 run.frame.stacks: forall s *stack.Stack :: existed(s) && s != old(vm.stack) ==> s.entries === old(s.entries)
 //@   ensures @C07 run.frame.rows: forall a ref :: existed(a) && a != old(arr(vm.stack.entries)) ==> objRowUnchanged(a)
 //@   ensures @C07 run.bytecode: vm.bytecode === old(vm.bytecode) && vm.stack == old(vm.stack) && vm.depth == old(vm.depth)
-//@   ensures @C06 @C07 run.scopes.len: err == nil ==> len(vm.environment.local) == old(len(vm.environment.local))
+//@   ensures @C06 @C07 run.scopes.len: len(vm.environment.local) <= old(len(vm.environment.local))
 //@   ensures @C06 run.scopes.count: count(scopes) >= old(count(scopes))
 //@   statefields VM.fields VM.stack VM.bytecode VM.depth Environment.local
 //@   onpanic @C07 @C08 run.panic.restore: vm.bytecode === old(vm.bytecode) && vm.stack == old(vm.stack) && vm.depth == old(vm.depth)
+//@   onpanic @C06 @C07 run.panic.scopes: len(vm.environment.local) <= old(len(vm.environment.local))
 //@   panics maybe
 //@ loop 1 invariant run.inv.ip: 0 <= ip
 //@ loop 1 invariant run.inv.ln: ln == len(vm.bytecode)
